@@ -208,3 +208,100 @@ Example C16_model_output :
   render_text no_quant no_numfmt (mkopts false false false false true [] [32; 32]) [([110%Z], TInt)] [[CInt (-5)]; [CNull]]
   = Some [110; 32; 10; 45; 45; 10; 45; 53; 10; 32; 32; 10]%Z.
 Proof. vm_compute. reflexivity. Qed.
+
+(* ---------------------------------------------------------------------------------------------------------------
+   Tie by translation: Gen/SrcRender.v is regenerated on every run from the SOURCE of the two-phase column renderers
+   of beanquery/query_render.py (harness/vf/src_render.py).  Interpreting the translated update / prepare / format
+   methods (Model/PyMini.v) on the encoded values of Model/PrimsRender.v (which fixes what str, max, rjust, ljust,
+   strftime, as_tuple and the f-string alignment specs are assumed to do) yields the renderer functions of
+   Model/Render.v the theorems above are stated over. *)
+From Coq Require Import String.
+From Verif Require Import Model.PyMini Model.PrimsRender Gen.SrcRender Proofs.SrcRender.
+
+Theorem C16_source_base_prepare : forall (call_ref : nat -> list pv -> pv) (w p : pv) (rest : env),
+  call_method call_ref prims_render render_base_prepare (("maxwidth", w) :: ("prepared", p) :: rest)%string [] =
+  Ok ((("maxwidth", w) :: ("prepared", PBool true) :: rest)%string, w).
+Proof. exact base_prepare_src. Qed.
+Print Assumptions C16_source_base_prepare.
+
+(* ObjectRenderer (also StringRenderer, IntRenderer, DictRenderer, which inherit it: checked by the generator) *)
+Theorem C16_source_object_update : forall (call_ref : nat -> list pv -> pv) (w : Z) (k : nat) (v : pv) (s : str) (rest : env),
+  call_ref k [v] = PV (VStr s) ->
+  call_method call_ref prims_render render_object_update (("maxwidth", PInt w) :: ("format", PRef k) :: rest)%string [v] =
+  Ok ((("maxwidth", PInt (Z.max w (Z.of_nat (List.length s)))) :: ("format", PRef k) :: rest)%string, PNone).
+Proof. exact object_update_src. Qed.
+Print Assumptions C16_source_object_update.
+
+Theorem C16_source_object_format : forall (call_ref : nat -> list pv -> pv) (flds : env) (c : cellv), scalar c = true ->
+  call_method call_ref prims_render render_object_format flds [enc_rcell c] = Ok (flds, PV (VStr (py_str c))).
+Proof. exact object_format_src. Qed.
+Print Assumptions C16_source_object_format.
+
+(* the width an ObjectRenderer column ends with is col_prepare's: max over len(str(value)) *)
+Theorem C16_source_object_width : forall (ss : list str) (w : Z), (0 <= w)%Z ->
+  fold_left (fun w s => Z.max w (Z.of_nat (List.length s))) ss w = Z.max w (Z.of_nat (nmax (map (@List.length Z) ss))).
+Proof. exact plain_fold. Qed.
+Print Assumptions C16_source_object_width.
+
+Theorem C16_source_bool_update : forall (call_ref : nat -> list pv -> pv) (w : Z) (b : bool) (rest : env),
+  call_method call_ref prims_render render_bool_update (("maxwidth", PInt w) :: rest)%string [PBool b] =
+  Ok ((("maxwidth", PInt (Z.max w (if b then 4 else 5))) :: rest)%string, PNone).
+Proof. exact bool_update_src. Qed.
+Print Assumptions C16_source_bool_update.
+
+Theorem C16_source_bool_format : forall (call_ref : nat -> list pv -> pv) (flds : env) (b : bool),
+  call_method call_ref prims_render render_bool_format flds [PBool b] = Ok (flds, PV (VStr (if b then s_true else s_false))).
+Proof. exact bool_format_src. Qed.
+Print Assumptions C16_source_bool_format.
+
+Theorem C16_source_date_update : forall (call_ref : nat -> list pv -> pv) (w v : pv) (rest : env),
+  call_method call_ref prims_render render_date_update (("maxwidth", w) :: rest)%string [v] =
+  Ok ((("maxwidth", PInt 10) :: rest)%string, PNone).
+Proof. exact date_update_src. Qed.
+Print Assumptions C16_source_date_update.
+
+Theorem C16_source_date_format : forall (call_ref : nat -> list pv -> pv) (flds : env) (y m d : Z),
+  call_method call_ref prims_render render_date_format flds [enc_rcell (CDate y m d)] = Ok (flds, PV (VStr (date_str y m d))).
+Proof. exact date_format_src. Qed.
+Print Assumptions C16_source_date_format.
+
+(* DecimalRenderer: update = Render.dec_update on (nintegral, nfractional); over a column = Render.dec_state *)
+Theorem C16_source_decimal_update : forall (call_ref : nat -> list pv -> pv) (mw : pv) (st : Z * Z) (d : dec) (rest : env),
+  call_method call_ref prims_render render_decimal_update (dec_fields mw st rest) [PV (VDec d)] =
+  Ok (dec_fields mw (dec_update st d) rest, PNone).
+Proof. exact decimal_update_src. Qed.
+Print Assumptions C16_source_decimal_update.
+
+Theorem C16_source_decimal_column : forall (call_ref : nat -> list pv -> pv) (ds : list dec) (mw : pv) (rest : env),
+  run_updates call_ref render_decimal_update (dec_fields mw (0, 0)%Z rest) (map (fun d => PV (VDec d)) ds) =
+  Ok (dec_fields mw (dec_state ds) rest).
+Proof. exact (fun cr ds mw rest => decimal_column_src cr ds mw (0, 0)%Z rest). Qed.
+Print Assumptions C16_source_decimal_column.
+
+(* prepare: DecimalRenderer's own statement, then the inherited ColumnRenderer.prepare: maxwidth = Render.dec_width *)
+Theorem C16_source_decimal_prepare : forall (call_ref : nat -> list pv -> pv) (mw : pv) (st : Z * Z) (rest : env),
+  (0 <= fst st)%Z -> (0 <= snd st)%Z ->
+  PyMini.bind (call_method call_ref prims_render render_decimal_prepare_head (dec_fields mw st rest) [])
+       (fun r => call_method call_ref prims_render render_base_prepare (fst r) []) =
+  Ok (dec_ready st rest, PInt (Z.of_nat (dec_width st))).
+Proof. exact decimal_prepare_src. Qed.
+Print Assumptions C16_source_decimal_prepare.
+
+(* format of a value the renderer has seen = Render.dec_format (alignment on the decimal point, rjust / ljust) *)
+Theorem C16_source_decimal_format : forall (call_ref : nat -> list pv -> pv) (st : Z * Z) (d : dec) (rest : env),
+  (0 <= snd st)%Z -> ((dexp d <= 0)%Z -> (dec_intw d <= fst st)%Z) ->
+  call_method call_ref prims_render render_decimal_format (dec_ready st rest) [PV (VDec d)] =
+  Ok (dec_ready st rest, PV (VStr (dec_format st d))).
+Proof. exact decimal_format_src. Qed.
+Print Assumptions C16_source_decimal_format.
+
+(* Non-vacuity: the translated DecimalRenderer run by the interpreter over the column [12.5; -3; 1E+2], then format 12.5 *)
+Example C16_source_decimal_example :
+  let ds := [mkdec false 125 (-1); mkdec true 3 0; mkdec false 1 2] in
+  let cr : nat -> list pv -> pv := fun _ _ => PNone in
+  dec_state ds = (4, 1)%Z /\
+  run_updates cr render_decimal_update (dec_fields (PInt 0) (0, 0)%Z []) (map (fun d => PV (VDec d)) ds) =
+    Ok (dec_fields (PInt 0) (4, 1)%Z []) /\
+  call_method cr prims_render render_decimal_format (dec_ready (4, 1)%Z []) [PV (VDec (mkdec false 125 (-1)))] =
+    Ok (dec_ready (4, 1)%Z [], PV (VStr [32; 32; 49; 50; 46; 53]%Z)).
+Proof. repeat split; vm_compute; reflexivity. Qed.
